@@ -473,6 +473,254 @@ def circumstance_ties(chk, quick):
                'kernels = configured season)', mismatches=bad, branches=br)
 
 
+# ------------------------------------------------------------------------------ round 5: surfaces that carry a water film
+# `Element.waterStorage` is 0 in every generated model, but it is a documented attribute and the package's own tests
+# assign it after generate() (`rural.waterStorage = 0.005`). A film adds its own latent heat (evaporation of the film);
+# it is no input of the season statement: in exactly the months vegstart..vegend the vegetation takes part with its
+# albedo AND its latent / sensible partition of the absorbed sunlight, wet or dry; outside, the surface is bare.
+def partition_expected(road, m, s, e, alb, vc, g, t, va, gf, tf, solRec):
+    """what the vegetation contributes according to the property: (solAbs, vegetation latent, vegetation sensible)"""
+    if m < s or m > e:
+        return (1 - alb) * solRec, 0 * solRec, 0 * solRec
+    sol = ((1 - vc) * (1 - alb) + vc * (1 - va)) * solRec
+    if road:
+        return sol, (g * gf + t * tf) * (1 - va) * solRec, (g * (1 - gf) + t * (1 - tf)) * (1 - va) * solRec
+    return sol, vc * (1 - va) * gf * solRec, vc * (1 - va) * (1 - gf) * solRec
+
+
+def wet_call(impl, conv, st, road, m, s, e, film, prec, veg=True, fractions=None):
+    """the REAL SurfFlux on a two-layer horizontal element carrying `film`; veg=False: the bare twin (no vegetation on
+    the element at all); fractions=(gf, tf): the twin with other latent fractions"""
+    import v3_util as V3
+    Element, Material = impl.element.Element, impl.material.Material
+    mats = [Material(conv(F(1)), conv(F(1600000)), 'm'), Material(conv(F(1)), conv(F(1600000)), 'm')]
+    el = Element(conv(st['alb']), conv(F(9, 10)), [conv(F(1, 20)), conv(F(1, 20))], mats,
+                 conv(st['vc'] if veg else F(0)), conv(st['ts']), 1, 'x')
+    if road:
+        el.grasscoverage = conv(st['g'] if veg else F(0))
+        el.treecoverage = conv(st['t'] if veg else F(0))
+    el.solRec, el.infra = conv(st['solRec']), conv(st['infra'])
+    V3.set_film(el, conv, film)
+    gf, tf = fractions or (st['gf'], st['tf'])
+    par = V3.film_param(conv, s, e, st['va'], gf, tf)
+    forc = NS(pres=conv(F(101325)), prec=conv(prec), deepTemp=conv(F(290)))
+    el.SurfFlux(forc, par, NS(month=m, dt=conv(F(300))), conv(st['hum']), conv(st['tr']), conv(st['wind']), conv(F(2)),
+                conv(F(0)))
+    return dict(solAbs=el.solAbs, lat=el.lat, sens=el.sens, flux=el.flux, film=el.waterStorage)
+
+
+def wet_partition_msg(st, road, m, s, e, base, bare, twin, twin_f, tol):
+    """the season statement on a wet surface, from three calls that differ only in vegetation data"""
+    def near(a, b):
+        return abs(F(a) - F(b)) <= tol * (abs(F(b)) + 1)
+    sol, vlat, vsen = partition_expected(road, m, s, e, st['alb'], st['vc'], st['g'], st['t'], st['va'], st['gf'], st['tf'],
+                                         st['solRec'])
+    ins = s <= m <= e
+    where = 'month %d, season %d..%d (%s)' % (m, s, e, 'inside' if ins else 'outside')
+    if not near(base['solAbs'], sol):
+        return '%s: absorbed sunlight %s, expected %s' % (where, float(base['solAbs']), float(sol))
+    if not near(F(base['lat']) - F(bare['lat']), vlat):
+        return ('%s: the vegetation adds %s W/m2 of latent heat to what the same wet surface without vegetation releases '
+                '(%s), its latent share of the absorbed sunlight is %s' % (
+                    where, float(F(base['lat']) - F(bare['lat'])), float(bare['lat']), float(vlat)))
+    if not near(F(base['sens']) - F(bare['sens']), vsen):
+        return ('%s: the vegetation adds %s W/m2 of sensible heat to what the same wet surface without vegetation releases, '
+                'its sensible share of the absorbed sunlight is %s' % (
+                    where, float(F(base['sens']) - F(bare['sens'])), float(vsen)))
+    _s2, vlat2, vsen2 = partition_expected(road, m, s, e, st['alb'], st['vc'], st['g'], st['t'], st['va'], twin_f[0],
+                                           twin_f[1], st['solRec'])
+    if not near(F(twin['lat']) - F(base['lat']), vlat2 - vlat) or not near(F(twin['sens']) - F(base['sens']), vsen2 - vsen):
+        return ('%s: latent fractions (grass, tree) changed from (%s, %s) to (%s, %s): latent heat moves by %s and sensible '
+                'heat by %s W/m2, expected %s and %s' % (
+                    where, st['gf'], st['tf'], twin_f[0], twin_f[1], float(F(twin['lat']) - F(base['lat'])),
+                    float(F(twin['sens']) - F(base['sens'])), float(vlat2 - vlat), float(vsen2 - vsen)))
+    if not ins and any(not near(base[k], bare[k]) for k in ('solAbs', 'lat', 'sens', 'flux')):
+        return '%s: the surface differs from bare ground' % where
+    if not (near(base['film'], bare['film']) and near(base['film'], twin['film'])):
+        return '%s: the film left after the step depends on vegetation data' % where
+    return None
+
+
+def wet_surface_ties(chk, pkg):
+    import uwgutil as UU
+    import v3_util as V3
+    rng = chk.rng
+    big = chk.tier == 'thorough'
+    plain = UU.uwg_mod()
+    seasons = [(4, 10), (1, 12), (6, 6), (5, 9), (2, 11), (9, 3)]
+    cases = []
+    for (s, e) in seasons:
+        for m in range(1, 13):
+            if not big and (m + s) % 2 and m not in (s, e, s - 1, e + 1):
+                continue
+            for road in (True, False):
+                cases.append((m, s, e, road))
+    nbad, n, br = 0, 0, {}
+    for i, (m, s, e, road) in enumerate(cases):
+        for film in (V3.FILMS[1:] if big else [V3.FILMS[1 + (i + j) % (len(V3.FILMS) - 1)] for j in (0, 2)]):
+            st = surf_state(rng)
+            st['hum'] = rq(rng, 0, 0.03, 10000)
+            if st['solRec'] == 0:
+                st['solRec'] = F(rng.randint(20, 900))
+            prec = rng.choice([F(0), F(0), F(2, 10 ** 6)])
+            twin_f = (rq(rng, 0.05, 0.95), rq(rng, 0.05, 0.95))
+            for mode, impl in (('exact', pkg), ('float', plain)):
+                conv = V3.conv_of(mode)
+                try:
+                    base = wet_call(impl, conv, st, road, m, s, e, film[1], prec)
+                    bare = wet_call(impl, conv, st, road, m, s, e, film[1], prec, veg=False)
+                    twin = wet_call(impl, conv, st, road, m, s, e, film[1], prec, fractions=twin_f)
+                except (ZeroDivisionError, ValueError, OverflowError):
+                    continue
+                n += 1
+                key = '%s/%s/%s/%s' % (mode, 'road' if road else 'non-road',
+                                       'film' if film in V3.WET else 'film below tolerance',
+                                       'in-season' if s <= m <= e else 'off-season')
+                br[key] = br.get(key, 0) + 1
+                msg = wet_partition_msg(st, road, m, s, e, base, bare, twin, twin_f, F(0) if mode == 'exact' else F(1, 10 ** 9))
+                if msg:
+                    nbad += 1
+                    if nbad <= 3:
+                        chk.violation('impl-violation', 'season oracle on Element.SurfFlux of a surface carrying a water film '
+                                      '(%s arithmetic)' % mode,
+                                      case={'month': m, 'vegStart': s, 'vegEnd': e, 'road': road,
+                                            'waterStorage_set_by_the_caller': '%s (%s)' % (film[1], film[0]),
+                                            'precipitation': str(prec), 'state': {k: str(v) for k, v in st.items()},
+                                            'twin_latent_fractions(grass, tree)': [str(x) for x in twin_f],
+                                            'arithmetic': mode},
+                                      observed=msg,
+                                      expected='inside vegstart..vegend the vegetation absorbs with its albedo and splits its '
+                                               'share into latent / sensible heat by the latent fractions, wet or dry; '
+                                               'outside the surface is bare ground and the vegetation parameters have no '
+                                               'effect; the film only adds its own evaporation')
+    if not (br.get('exact/road/film/in-season') and br.get('float/non-road/film/in-season') and
+            br.get('exact/non-road/film/off-season')):
+        raise core.Infra('wet-surface family lost a branch: %s' % br)
+    chk.direct('season-oracle(SurfFlux on surfaces carrying a water film; exact and float)', n, n,
+               'the REAL Element.SurfFlux (exact rationals with the package\'s constants in Param, and plain floats) on '
+               'horizontal road / non-road elements whose waterStorage a caller set to 1e-20, 3e-10, 0.0004, 0.0021, 0.005 '
+               '(tests/test_element.py), 0.02, with and without precipitation, sunlit, for months 1..12 x seasons 4..10, '
+               '1..12, 6..6, 5..9, 2..11 and the empty season 9..3. Each case = three calls that differ only in vegetation '
+               'data (as is; no vegetation at all; other latent fractions). Oracle: solAbs by the season; latent / sensible '
+               'heat MINUS that of the same wet surface without vegetation = the vegetation\'s latent / sensible share of the '
+               'absorbed sunlight in season and 0 outside; changing the latent fractions moves latent and sensible heat by '
+               'exactly the share in season and not at all outside; the film left behind does not depend on vegetation',
+               mismatches=nbad, branches=br)
+
+
+def live_wet_runs(chk):
+    """generate(); films assigned by hand (as tests/test_element.py does); simulate() - judged at every SurfFlux call of a
+    vegetated horizontal element against the CONFIGURED season and the clock month:
+      * sensible heat minus the convective part = the vegetation's sensible share of the absorbed sunlight (0 outside);
+      * latent heat minus the film's own evaporation (recomputed from the element's qsat) = the vegetation's latent share;
+      * for the road: both, per m2 of urban area, equal what solarcalcs hands to the canyon (treeSensHeat / treeLatHeat):
+        the reflection model and the surface-flux model agree on the partition."""
+    import uwgutil as U
+    import v3_util as V3
+    uwg = U.uwg_mod()
+    import uwg.element as EL
+    from uwg.utilities import is_near_zero
+    work = chk.work()
+    rng = chk.rng
+    runs = [dict(month=7, day=rng.randint(1, 28), nday=1, vegstart=4, vegend=10, vegroof=0.5),
+            dict(month=3, day=31, nday=2, vegstart=4, vegend=10)]
+    if chk.tier == 'thorough':
+        runs += [dict(month=10, day=31, nday=2, vegstart=4, vegend=10, vegroof=0.3),
+                 dict(month=1, day=15, nday=1, vegstart=4, vegend=10), dict(month=6, day=30, nday=2, vegstart=1, vegend=6)]
+    films = [(0.005, 0.005, 0.005), (0.002, 0.005, 0.001), (0.005, 0.0004, 0.02)]
+    bad, counts, cur = [], {}, {}
+    orig = EL.Element.SurfFlux
+
+    def count(k):
+        counts[k] = counts.get(k, 0) + 1
+
+    def surf_wrap(self, forc, parameter, simTime, humRef, tempRef, windRef, boundCond, intFlux):
+        if not (self.horizontal and cur.get('kinds')):
+            return orig(self, forc, parameter, simTime, humRef, tempRef, windRef, boundCond, intFlux)
+        t0, w0, sol = self.layerTemp[0], self.waterStorage, self.solRec
+        r = orig(self, forc, parameter, simTime, humRef, tempRef, windRef, boundCond, intFlux)
+        kind = cur['kinds'].get(id(self))
+        if kind is None or not (sol > 0 and self.vegcoverage > 0):
+            return r
+        mth = simTime.month
+        ins = cur['vs'] <= mth <= cur['ve']
+        wet = (not is_near_zero(w0)) and w0 > 0
+        road = kind == 'road'
+        _sol, vlat, vsen = partition_expected(road, mth, cur['vs'], cur['ve'], self.albedo, self.vegcoverage,
+                                              getattr(self, 'grasscoverage', 0.), getattr(self, 'treecoverage', 0.),
+                                              parameter.vegAlbedo, parameter.grassFLat, parameter.treeFLat, sol)
+        soil = 0.
+        if wet:
+            dens = forc.pres / (1000 * 0.287042 * tempRef * (1. + 1.607858 * humRef))
+            soil = V3.film_eg(self.qsat, self.aeroCond, t0, forc.pres, dens, humRef, parameter) * \
+                parameter.waterDens * parameter.lv
+        count('%s:%s:%s' % (kind, 'wet' if wet else 'dry', 'in-season' if ins else 'off-season'))
+        got_sen = self.sens - self.aeroCond * (t0 - tempRef)
+        got_lat = self.lat - soil
+        tol = 1e-9 * (abs(sol) + abs(soil) + abs(self.sens) + 1.)
+        at = 'clock %d/%s %ds, configured season %d..%d, film before the call %r m' % (
+            mth, int(simTime.day), int(simTime.secDay), cur['vs'], cur['ve'], w0)
+        if len(bad) < 3 and (abs(got_sen - vsen) > tol or abs(got_lat - vlat) > tol):
+            bad.append('%s (%s), %s: sensible heat beyond convection %r W/m2, latent heat beyond the film\'s own '
+                       'evaporation %r W/m2; the vegetation\'s shares of the absorbed sunlight (%r W/m2 received) are %r '
+                       'and %r' % (kind, self.name, at, got_sen, got_lat, sol, vsen, vlat))
+        if road and cur.get('ucm') is not None and sol == cur['ucm'].SolRecRoad:
+            u = cur['ucm']
+            open_frac = 1. - u.bldDensity
+            count('road-vs-solarcalcs:%s' % ('wet' if wet else 'dry'))
+            if len(bad) < 3 and (abs(got_sen * open_frac - u.treeSensHeat) > tol or
+                                 abs(got_lat * open_frac - u.treeLatHeat) > tol):
+                bad.append('road, %s: per m2 of urban area the surface-flux model books %r (sensible) / %r (latent) W/m2 for the '
+                           'vegetation, the reflection model hands the canyon %r / %r' % (
+                               at, got_sen * open_frac, got_lat * open_frac, u.treeSensHeat, u.treeLatHeat))
+        return r
+
+    EL.Element.SurfFlux = surf_wrap
+    done = 0
+    try:
+        for k, cfg in enumerate(runs):
+            m = U.new_model(outdir=work, outname='c18wet.epw', dtsim=300, **cfg)
+            fl = films[k % len(films)]
+            nb = len(bad)
+            try:
+                with core.quiet():
+                    m.generate()
+                    cur.update(vs=m.vegstart, ve=m.vegend, ucm=m.UCM, kinds={id(m.UCM.road): 'road', id(m.rural): 'rural'})
+                    m.rural.waterStorage, m.UCM.road.waterStorage = fl[0], fl[1]
+                    for b in m.BEM:
+                        cur['kinds'][id(b.roof)] = 'roof'
+                        b.roof.waterStorage = fl[2]
+                    m.simulate()
+                done += 1
+            except Exception as ex:  # noqa: BLE001 - the model's own fail-stop is not a verdict here
+                if type(ex) is not Exception:
+                    raise
+                chk.notes.append('wet season run %s skipped: %s' % (cfg, str(ex)[:60]))
+            finally:
+                cur.clear()
+            for msg in bad[nb:]:
+                chk.violation('impl-violation', 'season oracle on a live simulation whose surfaces carry a water film',
+                              case=dict(cfg, dtsim=300, after_generate='rural.waterStorage = %s; UCM.road.waterStorage = %s; '
+                                        'every roof: %s' % fl),
+                              observed=msg,
+                              expected='in the configured months the vegetation takes part with its latent / sensible '
+                                       'partition on every vegetated horizontal surface, wet or dry, and the reflection '
+                                       'model agrees; outside it does not act')
+    finally:
+        EL.Element.SurfFlux = orig
+    if done and not (counts.get('road:wet:in-season') and counts.get('rural:wet:in-season') and
+                     counts.get('road-vs-solarcalcs:wet')):
+        raise core.Infra('no wet vegetated surface was simulated in season: %s' % counts)
+    chk.direct('live-season-with-water-films(generate; films assigned; simulate)', sum(counts.values()), done,
+               'real runs (Singapore, dtsim 300; a July day with vegetated roofs, 31 Mar + 2 days across the season start; '
+               'thorough: 31 Oct + 2 days, a January day, 30 Jun + 2 days with season 1..6) in which rural ground, road and '
+               'roofs are given films 0.0004 .. 0.02 m by plain assignment after generate(): every sunlit SurfFlux call of a '
+               'vegetated horizontal element judged against the configured season and the clock month - sensible heat '
+               'beyond convection and latent heat beyond the film\'s own evaporation (recomputed from the element\'s qsat) '
+               'are the vegetation\'s shares of the absorbed sunlight in season and 0 outside; for the road, per m2 of urban '
+               'area, they equal treeSensHeat / treeLatHeat of the reflection model', mismatches=len(bad), branches=counts)
+
+
 def run(chk):
     chk.proof(MODULE, THEOREMS)
     if chk.tier == 'thorough':
@@ -576,6 +824,8 @@ def run(chk):
                mismatches=bad)
     live_season_runs(chk)
     live_configured_season_runs(chk)
+    wet_surface_ties(chk, pkg)
+    live_wet_runs(chk)
     circumstance_ties(chk, chk.tier == 'quick')
     wrap = [(m, s, e) for (m, s, e, *_r) in meta2 if s > e]
     chk.measurements['wraparound'] = (
